@@ -168,7 +168,7 @@ def fmt_atom(a):
         return a[1] + "^T"
     if tag == "outer":
         return "outer(%s,%s)" % (fmt_atom(a[1]), fmt_atom(a[2]))
-    if tag in ("exp", "ln", "Phi", "PhiInv", "trunc", "sqrt", "inv", "signum", "abs"):
+    if tag in ("exp", "ln", "Phi", "PhiInv", "trunc", "truncq", "sqrt", "inv", "signum", "abs"):
         return "%s(%s)" % (tag, poly_from_key(a[1]).fmt())
     if tag == "pow":
         return "pow(%s; %s)" % (poly_from_key(a[1]).fmt(), poly_from_key(a[2]).fmt())
@@ -619,6 +619,12 @@ class Ev:
         callee = e.get("resolved") or e.get("callee")
         if callee and self.facts.fn(callee) is not None:
             return self.apply_fn(callee, vals, depth)
+        # inside a generic function the operator is the trait method on a type parameter: select the in-crate impl by the operands' actual kinds
+        tys = [v.adt if isinstance(v, Rec) else ("f64" if isinstance(v, Poly) else None) for v in vals]
+        if callee and None not in tys:
+            for rr in self.facts.all_fns():
+                if rr.get("trait_item") == callee and [t.replace("&", "") for t in rr["sig"]] == tys:
+                    return self.apply_fn(rr["fn"], vals, depth)
         raise Unsupported("operator on struct operands without a local impl: %s" % callee)
 
     def ev_bin(self, e, env, depth):
@@ -673,7 +679,8 @@ class Ev:
                 return l * r.inv()
             if op == "Rem":
                 # x % y = x - trunc(x/y)*y  (f64 and integer remainder alike, as an identity over the reals)
-                return l - func_atom("trunc", l * r.inv()) * r
+                # the built-in `%` (IEEE fmod, exact) is kept apart from a hand-written `x - trunc(x/y)*y` (rounded): `truncq` is the quotient implied by `%`
+                return l - func_atom("truncq", l * r.inv()) * r
             if op in ("Eq", "Ne", "Lt", "Le", "Gt", "Ge"):
                 lt = (e["l"].get("ty") or "").replace("&", "").strip()
                 return cmp_sym(op, l, r, lt in INT_TYPES)
@@ -1465,6 +1472,11 @@ class Ev:
             el = self.elem_of(recv)
             if el is not None:
                 return Seq(recv, el if callable(el) else (lambda idx, el=el: el))
+        if isinstance(recv, Sym) and m in ("map", "filter", "enumerate", "zip", "all", "any", "fold", "for_each", "filter_map", "flat_map") and recv.tag[:1] != ("ctor",):
+            # an opaque value that is itself an iterator (`s.split(",")`): same sequence as when a `for` loop walks it
+            el = self.elem_of(recv)
+            if el is not None:
+                recv = Seq(recv, el if callable(el) else (lambda idx, el=el: el))
         if isinstance(recv, Rec) and recv.adt.endswith("ops::Range"):
             if m in ("rev", "into_iter", "iter") and not args:
                 tag = "revrange" if m == "rev" else "range"
@@ -1489,10 +1501,17 @@ class Ev:
                         self.bind(f.params[0], f0(idx), env2)
                         return self.collapse(self.eval(f.body, env2, depth))
                     return Seq(recv.src, mapped, recv.enumerated)
-                if isinstance(f, Sym) and f.tag[0] == "fn" and self.facts.fn(f.tag[1]) is not None:
-                    return Seq(recv.src, lambda idx, f=f, f0=recv.fn: self.apply_fn(f.tag[1], [f0(idx)], depth), recv.enumerated)
+                if isinstance(f, Sym) and f.tag[0] == "fn":
+                    hook = next((h for suffix, h in self.hooks.items() if not suffix.startswith("@") and f.tag[1].endswith(suffix)), None)
+                    if hook is not None:
+                        return Seq(recv.src, lambda idx, hook=hook, f0=recv.fn: hook(self, [f0(idx)], e), recv.enumerated)     # `.map(helper)` == `.map(|x| helper(x))`
+                    if self.facts.fn(f.tag[1]) is not None:
+                        return Seq(recv.src, lambda idx, f=f, f0=recv.fn: self.apply_fn(f.tag[1], [f0(idx)], depth), recv.enumerated)
                 raise Unsupported("map over a function value that is not modelled: %r" % (f,))
             if m == "collect" and not args:
+                if (e.get("ty") or "").replace("&", "").startswith("std::result::Result<"):
+                    # collecting Results: Ok(all payloads) unless one is Err, which is returned — the same convention as `push(f(x)?)` with `?` on an opaque result
+                    return Sym("ctor", "Ok", Coll(recv))
                 return Coll(recv)
             if m == "skip" and len(args) == 1 and isinstance(args[0], Poly) and not recv.enumerated:
                 return Seq(Sym("skip", vkey(recv.src), args[0].key()), lambda idx, f0=recv.fn, n=args[0]: f0(idx + n))
@@ -1509,7 +1528,8 @@ class Ev:
             if m == "fold" and len(args) == 2 and isinstance(args[1], Clo):
                 f = args[1]
                 env2 = dict(f.env)
-                self.bind(f.params[0], Sym("acc") if not isinstance(args[0], Poly) else Poly.atom("acc"), env2)
+                accv = Poly.atom("acc") if isinstance(args[0], Poly) else (operand("acc", args[0].adt) if isinstance(args[0], Rec) and args[0].adt.startswith("dual::dual::Dual") else Sym("acc"))
+                self.bind(f.params[0], accv, env2)
                 self.bind(f.params[1], recv.fn(Poly.atom("q%d" % len(self.loops))), env2)
                 self.loops.append(("q", vkey(recv.src)))
                 try:
@@ -1729,6 +1749,16 @@ def arm_guard(pat, scrut):
         if op:
             return ("if", vkey(cmp_sym(op, poly_from_key(scrut.tag[1]), Poly.const(0), True)))
     return ("arm", pat_key(pat), vkey(scrut))
+
+
+def unq(v):
+    """Forget the distinction between `%` and the explicit truncated-quotient formula (they agree as real functions; only rounding differs):
+    used where a value is compared with the calculus rule rather than with another implementation."""
+    if isinstance(v, Poly):
+        return poly_from_key(key_subst(v.key(), "truncq", "trunc"))
+    if isinstance(v, Rec):
+        return Rec(v.adt, {k: unq(x) for k, x in v.fields.items()})
+    return v
 
 
 def eq_sym(a, b):
